@@ -17,6 +17,8 @@ TOP_MODULES = ('lib_guesser', 'lib_trainer', 'lib_scorer', 'lib_princeling',
                'pcfg_guesser', 'trainer', 'password_scorer', 'prince_ling', 'edit_rules')
 
 sys.dont_write_bytecode = True
+import warnings
+warnings.simplefilter("ignore", SyntaxWarning)
 
 
 def _is_tree_module(name):
@@ -96,6 +98,9 @@ def scratch_tree(with_rules=()):
         elif name.endswith('.py'):
             shutil.copy2(src, os.path.join(dst, name))
     os.makedirs(os.path.join(dst, 'Rules'), exist_ok=True)
+    # the copy is ours: byte-compile it once so that every "fresh process" import is cheap
+    import compileall
+    compileall.compile_dir(dst, quiet=2, workers=1)
     for r in with_rules:
         shutil.copytree(os.path.join(REPO, 'Rules', r), os.path.join(dst, 'Rules', r))
     return dst
